@@ -401,6 +401,10 @@ def unit_torn_down_flag(eng, tier, prop):
             elif p.outcome[0] == "return":
                 u.must_hold("C09.verify()-on-clone-must-panic", p.pc, orig)
                 u.must_be_true("C09.verify()-runs-teardown_panic-once", len(events(p, "teardown_panic")) == 1)
+                # C13/C12: the consumed instance is released afterwards (its shared state holds the configured values, which
+                # are dropped exactly once): it is dropped, not forgotten
+                dropped = [e for e in p.trace if e[0] == "drop" and e[2] == "_1"]
+                u.must_be_true("C13.verify()-releases-the-instance-afterwards", bool(dropped) and not events(p, "forget"), {"drops": [e[1:] for e in p.trace if e[0] == "drop"][:4], "forget": events(p, "forget")})
         u.witness("verify(): both outcomes", [z3.BoolVal({p.outcome[0] for p in paths} >= {"panic", "return"})])
         # no_verify_in_drop(self)
         nv = eng.find_fn(r"::no_verify_in_drop$")
@@ -604,7 +608,7 @@ def unit_induce_panic(eng, tier, prop):
     # Continuation::report — every variant goes through induce_panic with its own error kind
     rp = eng.find_fn(r"^private::<impl at src/private\.rs:\d+:1: \d+:32>::report$")
     want = {"Answer": "NotAnswered", "Unmock": "CannotUnmock", "CallDefaultImpl": "NoDefaultImpl"}
-    with opaque_calls(eng, [r"^<F as MockFn>::info$"]):
+    with opaque_calls(eng, [r"^<F as MockFn>::info$", r"^TypeId::of$"]):
         for var, errk in want.items():
             cont = Adt("Continuation", eng.variant_index("Continuation", var))
             if var == "Answer":
@@ -630,6 +634,10 @@ def unit_induce_panic(eng, tier, prop):
                     rec = None
                 okk = isinstance(rec, Adt) and rec.discr == eng.variant_index("MockError", errk)
                 u.must_be_true(f"C08.report[{var}]-records-{errk}", okk, {"recorded": repr(rec)[:120]})
+                if okk:
+                    # C19/C16: the error names the call through the method's own MockFn::info() (trait and method path)
+                    inf = [c.val for k_, c in rec.fields.items() if k_[0] == errk]
+                    u.must_be_true(f"C19.report[{var}]-names-the-method-by-its-own-info", len(inf) == 1 and "info" in (inf[0].name if isinstance(inf[0], Opaque) else (inf[0].lazy.name if isinstance(inf[0], Adt) and inf[0].lazy is not None else "")), {"info": repr(inf)[:160]})
     # no function of the runtime panics directly, bypassing induce_panic, on a call path (eval.rs / private.rs::eval)
     direct = []
     for f in eng.fns:
@@ -2399,6 +2407,27 @@ def unit_mirror_wiring(eng_unused, tier, prop, root=None):
                 mpath = {"tokio_1.rs": "tokio_1::io::", "futures_0_3.rs": "futures_io_0_3::"}.get(os.path.basename(path), "") + mpath
             mirrors.append({"file": os.path.relpath(path, repo), "line": line, "trait": m.group(2), "mirror": mpath, "api": api.group(1) if api else None, "items": items or {}, "lines": lines})
     u.must_be_true("C20.mirrors-found", len(mirrors) >= 15, {"n": len(mirrors)})
+    # hand-written forwarding impls of the delegation helper (Display / Debug): each forwards to the entry point of ITS OWN
+    # trait on the wrapped mock (a default body that formats `self` runs on the helper)
+    fwd = [g for g in eng.fns if g.short == "fmt" and g.module.startswith("default_impl_delegator::") and g.params and "DefaultImplDelegator" in g.params[0][1]]
+    u.must_be_true("C20.helper-formatting-impls-found", len(fwd) == 2, {"n": len(fwd)})
+    seen_traits = set()
+    for g in fwd:
+        callees = [c for c, _ in all_callees(eng, g)]
+        tgt = [re.search(r"<Unimock as (?:[\w:]*::)?(\w+)>::fmt", c) for c in callees]
+        tgt = [t.group(1) for t in tgt if t]
+        # which trait is this impl for: the impl header in the source at the impl's line
+        own = None
+        if g.impl_span:
+            try:
+                ln = open(os.path.join(repo, g.impl_span[0])).read().split("\n")[g.impl_span[1] - 1]
+                mo = re.search(r"impl\s+(?:[\w:]*::)?(\w+)\s+for\s+DefaultImplDelegator", ln)
+                own = mo.group(1) if mo else None
+            except Exception:
+                own = None
+        seen_traits.add(own)
+        u.must_be_true("C20.helper-forwards-formatting-to-the-same-trait-on-the-mock", own is not None and tgt == [own], {"impl_for": own, "forwards_to": tgt})
+    u.must_be_true("C20.helper-implements-display-and-debug", seen_traits == {"Display", "Debug"}, {"traits": sorted(map(str, seen_traits))})
     checked = 0
     for mr in mirrors:
         up = _find_upstream(mr["mirror"])
@@ -2971,7 +3000,223 @@ def unit_chain_schedules(eng, tier, prop):
     return u.result()
 
 
+def fmt_capture(eng):
+    """Handlers that make formatting observable: every `write_fmt`/`write_str` on a Formatter emits an event ("write", pieces)
+    where a piece is a literal string or ("arg", identity-of-the-operand)."""
+    def end_value(v):
+        hops = 0
+        while isinstance(v, Ref) and hops < 6:
+            v = eng.force(v.cell)
+            hops += 1
+        return v
+
+    def ident(v):
+        if isinstance(v, Adt) and v.tag:
+            return v.tag
+        if isinstance(v, Int):
+            return ("int", str(z3.simplify(v.e)))
+        if isinstance(v, Str):
+            return ("str", v.s)
+        if isinstance(v, Adt) and v.lazy is not None:
+            return ("obj", v.lazy.name)
+        return ("?", repr(v)[:40])
+
+    def h_arg(call):
+        a = Adt("fmt::Argument", None)
+        a.tag = ("operand", ident(end_value(call.argv[0])), call.callee.split("::")[-1])
+        return a
+
+    def h_write(call):
+        args = call.argv[1]
+        if isinstance(args, (Str, Ref)) and call.norm.endswith("write_str"):
+            sv = end_value(args)
+            call.m.event("write", (sv.s if isinstance(sv, Str) else ("unknown",),))
+            return eng.mk_enum("Result", "Ok", UNIT)
+        tag = args.tag if isinstance(args, Adt) else None
+        pieces = []
+        if tag and tag[0] == "fmt":
+            ops = list(tag[2] or ())
+            if ops or tag[1].startswith('b"') or "\\x" in tag[1]:
+                for pc in decode_fmt_template(tag[1]):
+                    if pc[0] == "lit":
+                        pieces.append(pc[1])
+                    else:
+                        o = ops.pop(0) if ops else None
+                        pieces.append(("arg", o[1] if o else None))
+            else:
+                pieces.append(tag[1])
+        else:
+            pieces.append(("unknown",))
+        call.m.event("write", tuple(pieces))
+        return eng.mk_enum("Result", "Ok", UNIT)
+    return [(re.compile(r"rt::Argument::new_(display|debug)$"), h_arg), (re.compile(r"Formatter::write_fmt$|Formatter::write_str$"), h_write)]
+
+
+def rendered(p):
+    out = []
+    for e in p.trace:
+        if e[0] == "write":
+            for x in e[1]:
+                if isinstance(x, str):
+                    out.append(x)
+                else:
+                    idn = x[1]
+                    if isinstance(idn, tuple) and idn and idn[0] == "str":
+                        out.append(idn[1])
+                    else:
+                        out.append("{" + ":".join(map(str, idn or ("?",))) + "}")
+    return "".join(out).replace("\\n", "\n").replace('\\"', '"')
+
+
+def unit_mismatch_msg(eng, tier, prop):
+    """C19: the header of a mismatch report entry names the ARGUMENT POSITION (and, when several patterns contribute, the
+    pattern index): `<kind> mismatch for input #<input_index>` / `... call pattern #<pat_index>, input #<input_index>`."""
+    u = Unit(eng, "mismatch-msg", ["<MismatchMsg as Display>::fmt"], "pattern index, input index (64-bit), uniqueness flag, mismatch kind, comparison flag all symbolic")
+    cands = [g for g in eng.fns if g.short == "fmt" and g.params and g.params[0][1].replace(" ", "") in ("&MismatchMsg", "&mismatch::MismatchMsg")]
+    u.must_be_true("C19.mismatch-header-impl-found", len(cands) == 1, {"n": len(cands)})
+    if len(cands) != 1:
+        return u.result()
+    hs = fmt_capture(eng)
+    for h in hs:
+        eng.handlers.insert(0, h)
+    try:
+        msg = Adt("MismatchMsg", None)
+        pi = Adt("PatIndex", None)
+        pi.fields[(None, 0)] = Cell(Int(eng.named("pat_index", 64), 64, False), None, "pat_index")
+        ii = Adt("InputIndex", None)
+        ii.fields[(None, 0)] = Cell(Int(eng.named("input_index", 64), 64, False), None, "input_index")
+        uniq = eng.named_bool("is_unique_pat")
+        cmpf = eng.named_bool("has_comparison")
+        kind = eng.named("kind", 64)
+        nk = len(eng.enums["MismatchKind"])
+        msg.fields[(None, field_index(eng, "MismatchMsg", "pat_index"))] = Cell(pi, None, "pi")
+        msg.fields[(None, field_index(eng, "MismatchMsg", "input_index"))] = Cell(ii, None, "ii")
+        msg.fields[(None, field_index(eng, "MismatchMsg", "is_unique_pat"))] = Cell(Bool(uniq), None, "uniq")
+        msg.fields[(None, field_index(eng, "MismatchMsg", "has_comparison"))] = Cell(Bool(cmpf), None, "cmp")
+        msg.fields[(None, field_index(eng, "MismatchMsg", "mismatch_kind"))] = Cell(Adt("MismatchKind", Int(kind, 64, False)), None, "kind")
+        mach = eng.start(cands[0], [Ref(Cell(msg, None, "msg")), Ref(Cell(Adt("Formatter", None), None, "f"))])
+        mach.pc.append(z3.ULT(kind, nk))
+        paths = eng.explore(mach)
+        u.paths += len(paths)
+        cover = []
+        names = {"Pattern": "Pattern mismatch for ", "Eq": "Equality mismatch for ", "Ne": "Inequality mismatch for "}
+        for p in paths:
+            if p.outcome[0] in ("unknown", "bound"):
+                u.errors.append(f"mismatch header: {p.outcome[0]}: {p.outcome[1]}")
+                continue
+            if eng.check(p.pc) != z3.sat:
+                continue
+            cover.append(z3.And(p.pc) if p.pc else z3.BoolVal(True))
+            u.must_be_true("C19.mismatch-header-never-panics", p.outcome[0] == "return", {"outcome": repr(p.outcome)[:160]})
+            if p.outcome[0] != "return":
+                continue
+            text = rendered(p)
+            is_u = eng.check(list(p.pc) + [z3.Not(uniq)]) != z3.sat
+            not_u = eng.check(list(p.pc) + [uniq]) != z3.sat
+            pos = "input #{int:input_index}" if is_u else ("call pattern #{int:pat_index}, input #{int:input_index}" if not_u else None)
+            ok = pos is not None and any(text.startswith(v + pos) for v in names.values()) and text.rstrip().endswith(":")
+            u.must_be_true("C19.mismatch-header-names-the-argument-position", ok, {"rendered": text, "unique_pattern": is_u})
+            for vn, lead in names.items():
+                if text.startswith(lead):
+                    u.must_hold("C19.mismatch-header-kind-word-matches-the-kind", p.pc, kind == eng.variant_index("MismatchKind", vn), {"rendered": text})
+        u.must_be_unsat("C19.mismatch-header-covers-every-input", [z3.ULT(kind, nk), z3.Not(z3.Or(cover))] if cover else [z3.BoolVal(True)])
+        u.witness("both header forms rendered", [z3.BoolVal(len(cover) >= 4)])
+    finally:
+        for h in hs:
+            eng.handlers.remove(h)
+    return u.result()
+
+
+def unit_expected_pattern(eng, tier, prop):
+    """C19: the wrong-order error names the pattern that owns the expected slot: `find_ordered_expected_call_pattern_debug`
+    returns the debug rendering of the FIRST ordered method (in table order) that owns the index, whatever unordered
+    methods come before it; None only when no ordered method owns it."""
+    Mmax = 3 if tier == "thorough" else 2
+    u = Unit(eng, "expected-pattern", ["SharedState::find_ordered_expected_call_pattern_debug"], f"method table with M=0..{Mmax + 1} entries, match mode and slot ownership of every entry symbolic")
+    f = eng.find_fn(r"find_ordered_expected_call_pattern_debug$")
+    nm = len(eng.enums["PatternMatchMode"])
+    INORDER = eng.variant_index("PatternMatchMode", "InOrder")
+
+    def idx_of(call, r):
+        v = call.deref(r, "adt")
+        return v.tag[1] if isinstance(v, Adt) and v.tag and v.tag[0] == "mocker" else None
+
+    def h_owner(call):
+        i = idx_of(call, call.argv[0])
+        if i is None:
+            raise Unsupported("slot lookup on an untracked FnMocker")
+        own = eng.named_bool(f"owns[{i}]")
+        k = eng.decide(call.m, ("owner", call.fr.bb, i), [own, z3.Not(own)])
+        call.m.event("asked_owner", i)
+        if k == 1:
+            return eng.mk_enum("Option", "None")
+        t = Adt("(tuple)", None)
+        pi = Adt("PatIndex", None)
+        pi.tag = ("pat_of", i)
+        t.fields[(None, 0)] = Cell(pi, None, "t0")
+        t.fields[(None, 1)] = Cell(Ref(Cell(Opaque("CallPattern", f"pattern_of_{i}"), None, "pat")), None, "t1")
+        return eng.mk_enum("Option", "Some", t)
+
+    def h_debug(call):
+        i = idx_of(call, call.argv[0])
+        pi = call.argv[1]
+        d = Adt("CallPatternDebug", None)
+        d.tag = ("debug_of", i, pi.tag[1] if isinstance(pi, Adt) and pi.tag else None)
+        return d
+    hs = [(re.compile(r"^FnMocker::find_call_pattern_for_call_order$"), h_owner), (re.compile(r"^FnMocker::debug_pattern$"), h_debug)]
+    for h in hs:
+        eng.handlers.insert(0, h)
+    try:
+        for M in range(0, Mmax + 2):
+            st = lazy_adt("SharedState", "state")
+            entries = []
+            modes = []
+            for i in range(M):
+                fm = lazy_adt("FnMocker", f"mocker{i}")
+                fm.tag = ("mocker", i)
+                md = eng.named(f"mode[{i}]", 64)
+                modes.append(md)
+                fm.fields[(None, field_index(eng, "FnMocker", "pattern_match_mode"))] = Cell(Adt("PatternMatchMode", Int(md, 64, False)), None, f"mode{i}")
+                entries.append((Cell(Int(eng.named(f"key{i}", 64), 64, False), None, f"key{i}"), Cell(fm, "FnMocker", f"mocker{i}")))
+            st.fields[(None, field_index(eng, "SharedState", "fn_mockers"))] = Cell(MapVal(entries), None, "state.fn_mockers")
+            mach = eng.start(f, [Ref(Cell(st, None, "state")), Int(eng.named("ordered_index", 64), 64, False)])
+            dom = [z3.ULT(md, nm) for md in modes]
+            mach.pc += dom
+            paths = eng.explore(mach)
+            u.paths += len(paths)
+            cover = []
+            elig = [z3.And(modes[i] == INORDER, eng.named_bool(f"owns[{i}]")) for i in range(M)]
+            for p in paths:
+                if p.outcome[0] in ("unknown", "bound"):
+                    u.errors.append(f"expected-pattern[M={M}]: {p.outcome[0]}: {p.outcome[1]}")
+                    continue
+                if eng.check(p.pc) != z3.sat:
+                    continue
+                cover.append(z3.And(p.pc) if p.pc else z3.BoolVal(True))
+                u.must_be_true(f"C19.expected-pattern-lookup-never-panics[M={M}]", p.outcome[0] == "return", {"outcome": repr(p.outcome)[:160]})
+                if p.outcome[0] != "return":
+                    continue
+                r = p.outcome[1]
+                some = isinstance(r, Adt) and r.discr == eng.variant_index("Option", "Some")
+                if some:
+                    d = r.fields[("Some", 0)].val
+                    i = d.tag[1] if isinstance(d, Adt) and d.tag and d.tag[0] == "debug_of" else None
+                    u.must_be_true(f"C19.expected-pattern-is-rendered-from-its-own-method-and-index[M={M}]", i is not None and d.tag[2] == i, {"debug": repr(d)[:100]})
+                    if i is not None:
+                        u.must_hold(f"C19.named-pattern-is-the-first-ordered-owner-of-the-slot[M={M}]", p.pc, z3.And([elig[i]] + [z3.Not(elig[j]) for j in range(i)]), {"named": i})
+                else:
+                    u.must_hold(f"C19.no-pattern-named-only-if-no-ordered-method-owns-the-slot[M={M}]", p.pc, z3.Not(z3.Or(elig)) if elig else z3.BoolVal(True), {"M": M})
+            u.must_be_unsat(f"C19.expected-pattern-lookup-covers-every-table[M={M}]", dom + [z3.Not(z3.Or(cover))] if cover else [z3.BoolVal(True)])
+        u.witness("tables explored", [z3.BoolVal(u.paths >= 4)])
+    finally:
+        for h in hs:
+            eng.handlers.remove(h)
+    return u.result()
+
+
 UNITS = {
+    "mismatch_msg": unit_mismatch_msg,
+    "expected_pattern": unit_expected_pattern,
     "chain_schedules": unit_chain_schedules,
     "display_call": unit_display_call,
     "generated_forwarding": _generated_forwarding,
